@@ -187,7 +187,6 @@ Definition enc_result (r : result) : val :=
 Definition enc_query_result (act : val) (r : result) : val :=
   match act with
   | VTup [VInt 8; VInt a1; _; _] => if a1 =? 0 then enc_result r else VBool true
-  | VTup [VInt 2; VInt a1; _; _] => if a1 =? 0 then enc_result r else VBool true   (* sum of large numbers / floats *)
   | _ => enc_result r
   end.
 
